@@ -15,7 +15,7 @@ SPEC = os.path.join(VERIF, 'spec')
 WORK = os.environ.get('VERIF_WORK') or os.path.join(VERIF, 'work')
 EVID = os.environ.get('VERIF_EVID') or os.path.join(VERIF, 'evidence')
 TLA_CP = '/opt/veriftools/tla/tla2tools.jar:/opt/veriftools/tla/CommunityModules-deps.jar'
-NCPU = min(16, os.cpu_count() or 4)
+NCPU = int(os.environ.get('VERIF_NCPU') or min(16, os.cpu_count() or 4))
 
 
 class MachineryError(Exception):
@@ -57,13 +57,15 @@ def _unescape(tla_string_body):
     return json.loads(json.loads('"' + tla_string_body.replace('\n', '') + '"'))
 
 
-def run_tlc(module, cfg=None, env=None, workers=1, metadir=None, timeout=1800, xmx='3g', extra=()):
+def run_tlc(module, cfg=None, env=None, workers=1, metadir=None, timeout=1800, xmx='3g', extra=(), coverage=False):
     """Run TLC on spec/<module>.tla, return (stdout, stats). Raises MachineryError on crash / timeout."""
     metadir = metadir or os.path.join(WORK, 'meta', module + '_' + str(os.getpid()))
     shutil.rmtree(metadir, ignore_errors=True)
     os.makedirs(metadir, exist_ok=True)
     cmd = ['java', '-XX:+UseSerialGC', '-Xmx' + xmx, '-Xss64m', '-cp', TLA_CP, 'tlc2.TLC',
            '-workers', str(workers), '-metadir', metadir, '-noGenerateSpecTE', '-config', cfg or (module + '.cfg')]
+    if coverage:
+        cmd += ['-coverage', '1']
     cmd += list(extra) + [module + '.tla']
     e = dict(os.environ)
     e.update(env or {})
